@@ -121,6 +121,7 @@ RESTRICT = Ob("C16-F2", "R-FLOW", "restricted output: start/end only with chrom;
 NAME_TABLE = Ob("C17-T1", "R-TABLE", "name column table (0/1/2/k>=3, interval, none) and --namecol parsing (1-based, default 4)", CL.ob_name_table, floor=2)
 AVG_SIBS = Ob("C17-S1", "R-SIB", "threaded process_chunk vs serial loop: same calls, same row formats and argument lists", CL.ob_avg_siblings)
 AVG_REASM = Ob("C17-D1", "R-DISC", "chunk results queued and drained FIFO, each fully copied before the next; workers read exactly their chunk's byte range", CL.ob_avg_reassembly, floor=2)
+AVG_ITER = Ob("C17-S2", "R-SIB", "bigwig_average_over_bed (library iterator behind the Python binding): one line read/parsed/named/measured per step, yields (name, stats) of that row", CL.ob_avg_iterator)
 VALUES_OVER_BED = Ob("C17-F1", "R-FLOW", "bigwigvaluesoverbed: per region end-start slots, slot i-start <- value covering base i", CL.ob_values_over_bed)
 FV_SEEK = Ob("C18-B1", "R-BOUND", "FileView::seek: every arm positions the file within [start,end] (exhaustive over order types) with identical epilogues", SL.ob_fileview_seek, floor=4)
 FV_READ = Ob("C18-B4", "R-BOUND", "FileView::read truncates to end-current and advances by the bytes read; new() clamps end and positions at start", SL.ob_fileview_read, floor=2)
@@ -146,6 +147,7 @@ from ..obs import queries as QU
 SEARCH_ORDER = Ob("C03-O1", "R-DISC", "index search visits children depth-first in stored order (pop_front + reversed push_front); blocks appended in visit order; chromosome resolved by exact name", QU.ob_search_order, floor=4)
 CACHE = Ob("C03-C1", "R-DISC", "caching reader: key (offset,size) derives Hash+Eq; caches only get/insert/entry/len/clear/clone; values returned are clones", QU.ob_cache, floor=3)
 CACHED_SIBS = Ob("C03-S2", "R-SIB", "plain vs caching reader: same read_node / nodes_overlapping arguments, same read_block_data; cached() keeps info", QU.ob_cached_siblings, floor=3)
+INTERSECT_TOOL = Ob("C04-T1", "R-FLOW", "bigtools intersect: query = the line's (chrom, start, end); every returned entry printed once, unfiltered", QU.ob_intersect_tool)
 INTERVAL_SIBS = Ob("C03-S3", "R-SIB", "get_interval / get_interval_move (and zoom pair) identical; query reaches search and iterator unchanged; iterators consume blocks in order", QU.ob_interval_siblings, floor=9)
 VALUES_ARRAY = Ob("C03-F1", "R-FLOW", "BigWigRead::values: NaN array of end-start, filled at clipped.start-start..clipped.end-start", QU.ob_values_array)
 BLOCK_DATA = Ob("C10-F1", "R-FLOW", "read_block_data: block.size bytes at block.offset; zlib inflate into uncompressBufSize iff > 0", QU.ob_block_data)
